@@ -244,16 +244,14 @@ def load_text(text, style, via, case_id):
         return Atoms.load_lmpdat(io.StringIO(text), atom_format=style)
     if via == "save_load_fileobj":
         return Atoms.load(io.StringIO(text), filetype="lmpdat", atom_format=style)
-    d = tempfile.mkdtemp(prefix="vmon-c13-")
-    try:
-        p = os.path.join(d, "x.lmpdat")
-        with open(p, "w") as f:
-            f.write(text)
-        import pathlib
-        return Atoms.load(pathlib.Path(p) if case_id % 2 else p, atom_format=style)
-    finally:
-        import shutil
-        shutil.rmtree(d, ignore_errors=True)
+    from vmon.oracle.util import worker_dir
+    p = os.path.join(worker_dir(), "x.lmpdat")        # the same path from case to case, each time with other content
+    from vmon.oracle.util import prime_path
+    prime_path(p)
+    with open(p, "w") as f:
+        f.write(text)
+    import pathlib
+    return Atoms.load(pathlib.Path(p) if case_id % 2 else p, atom_format=style)
 
 
 def run_case(case, ctx):
